@@ -34,6 +34,9 @@ VERIF_FAIL = (
     "unreachable", "could not prove termination", "recommendation not met",
     "failed to prove", "might not hold", "not satisfied",
 )
+UNSUPPORTED = ("not supported", "unsupported", "Unsupported", "does not yet support", "not yet supported", "cannot find", "Internal Verus Error",
+               "is not allowed", "expected ", "mismatched types", "unresolved", "cannot be used", "must be", "not implemented", "no method named",
+               "unrecognized", "cannot call", "cannot use", "mode error", "in this scope")
 SOLVER_BUDGET = ("Resource limit", "rlimit", "timed out", "time limit")
 
 
@@ -146,7 +149,7 @@ def classify(diags, mp):
             line = next((s["line_start"] for s in spans if s.get("is_primary")), 0)
             undec.append(("solver-budget", msg, region_id(region_of(mp, line))))
             continue
-        if d.get("code") is not None or not any(k in msg for k in VERIF_FAIL):
+        if d.get("code") is not None or any(k in msg for k in UNSUPPORTED) or not spans:
             undec.append(("unsupported-or-compile-error", msg.splitlines()[0][:200], ""))
             continue
         # the span that names the obligation
@@ -398,7 +401,12 @@ def main():
                 replay["counterexample"] = cex
                 tail = ""
             json.dump(replay, open(rp, "w"), indent=1)
-            print("VIOLATION property=%s replay=%s obligation=%s%s" % (pid, rp, rid, tail))
+            nprinted = globals().setdefault("_nprinted", 0)
+            if nprinted < 10:
+                print("VIOLATION property=%s replay=%s obligation=%s%s" % (pid, rp, rid, tail))
+            globals()["_nprinted"] = nprinted + 1
+        if globals().get("_nprinted", 0) > 10:
+            print("(%d further failed obligations of %s; replay files written under %s)" % (globals()["_nprinted"] - 10, pid, REPLAY))
         return 1
     print("OK property=%s obligations=%d discharged=%d units=%s wall=%.1fs" % (pid, len(obligations), len(obligations) - nfail, ",".join(units), time.time() - t0))
     return 0
